@@ -319,6 +319,14 @@ def run(case_seed, mode, fail_at=None):
                 fail_at=fail_at)
 
 
+def _diff(before, after, limit=4):
+    """the nodes of two snapshots that differ (a snapshot is a list of nodes in traversal order)"""
+    out = [(x, y) for x, y in zip(before, after) if x != y][:limit]
+    if len(before) != len(after):
+        out.append((f"{len(before)} objects reachable", f"{len(after)} objects reachable"))
+    return out
+
+
 def _what(r):
     return ", ".join(sorted({r["roles"][i] for i in r["changed"]})) + " changed"
 
@@ -342,8 +350,7 @@ def explore(chk, extra, mode, n_quick=1500, n_thorough=25000, max_fail=6):
                 f" ({r['outcome']}): {_what(r)}",
                 {"kind": "existing-probe", "mode": mode, "case_seed": case_seed, "fail_at": r["fail_at"],
                  "call": r["label"], "outcome": r["outcome"], "changed": [r["roles"][i] for i in r["changed"]],
-                 "before": repr([r["before"][i] for i in r["changed"]])[:3000],
-                 "after": repr([r["after"][i] for i in r["changed"]])[:3000],
+                 "differing objects (before, after)": repr([_diff(r["before"][i], r["after"][i]) for i in r["changed"]])[:3000],
                  "replay": f"bin/check {mode} --replay <this file>"},
                 sig={"kind": "existing-probe", "shape": r["shape"], "inplace": r["inplace"],
                      "fault": r["fail_at"] is not None})
@@ -391,7 +398,8 @@ def replay(pid, path):
     print("replay:", r["label"], "" if r["fail_at"] is None else f"| callback invocation {r['fail_at']} raises")
     print("  outcome:", r["outcome"], "| changed:", [r["roles"][i] for i in r["changed"]])
     for i in r["changed"][:3]:
-        print("  before:", repr(r["before"][i])[:600])
-        print("  after: ", repr(r["after"][i])[:600])
+        for x, y in _diff(r["before"][i], r["after"][i]):
+            print("  before:", repr(x)[:400])
+            print("  after: ", repr(y)[:400])
     print("replay:", f"still failing ({_what(r)})" if r["broken"] else "passes now")
     return 1 if r["broken"] else 0
